@@ -2,6 +2,7 @@
 import z3
 
 from pyvc import models, smt
+from pyvc.values import V
 from pyvc.smt import NONE, Ref
 from pyvc.spec import Clause, Interference, RaisesClause, Spec
 
@@ -175,12 +176,14 @@ def install(spec: Spec):
                              "hid(self, applicable_handlers[j]) in filtered_handlers and filtered_handlers[hid(self, applicable_handlers[j])] is applicable_handlers[j]))", ['C01']),
                 ('sound', "forall(lambda k: implies(k in filtered_handlers, hid(self, filtered_handlers[k]) == k and not would_skip(self, event, filtered_handlers[k]) "
                           "and filtered_handlers[k] in applicable_handlers), 'str')", ['C01']),
+                ('is_a_dict', 'wf_dict(filtered_handlers)', []),
             ]}},
             ensures=[
                 ('no_matching_handler_skipped', "forall(lambda j: implies(0 <= j and j < len(" + CANDS + ") and not would_skip(self, event, " + CANDS + "[j]), "
                                                 "hid(self, " + CANDS + "[j]) in result and result[hid(self, " + CANDS + "[j])] is " + CANDS + "[j]))", ['C01']),
                 ('only_matching_handlers', "forall(lambda k: implies(k in result, hid(self, result[k]) == k and not would_skip(self, event, result[k]) "
                                            "and result[k] in " + CANDS + "), 'str')", ['C01', 'C07']),
+                ('is_a_dict', 'wf_dict(result)', []),
             ],
             raises=[RaisesClause('RuntimeError', label='recursion_guard', tags=['C01'])])
     spec.methods[('EventBus', '_get_applicable_handlers')] = 'EventBus._get_applicable_handlers'
@@ -302,11 +305,48 @@ def install(spec: Spec):
     PE_RAISES = [RaisesClause('CancelledError', label='cancelled', tags=['C10', 'C16']),
                  RaisesClause('RuntimeError', label='recursion_guard', tags=['C01', 'C03', 'C11', 'C15'], origin='call:EventBus._get_applicable_handlers'),
                  RaisesClause('Exception', label='unexpected', caller_only=True)]
-    spec.fn('EventBus.process_event', file=S, qual='EventBus.process_event', is_async=True, trusted=True, interference='runloop',
-            params={'self': 'EventBus', 'event': 'BaseEvent', 'timeout': 'opt[real]'}, returns='NoneType',
-            requires=[('lock_held', "ctx('holds_global_lock')", ['C06', 'C02'])],
-            ghost_modifies=['processed'],
+    spec.ghosts['wal_calls'] = parse_ty('int')   # _default_wal_handler activations started by this task (task-owned)
+
+    def pe_first_stmt(ex, n):
+        ex.ghost_set('processed', ex.list_append(ex.ghost('processed'), ex.st.env['event']))
+
+    def pe_before_handlers(ex, n):
+        ex.st.flags['handlers_phase'] = 'running'
+
+    def pe_wal_pre(ex, n):
+        # C17: exactly one append per processed event, after that event's handlers on this bus have finished
+        ex.oblige('callsite:_default_wal_handler/requires', 'after_handlers_finished', z3.BoolVal(ex.st.flags.get('handlers_phase') == 'done'), ['C17'])
+        ex.ghost_set('wal_calls', mk_int(ex.ghost('wal_calls').term + 1))
+
+    def pe_pending_result_pre(ex, n):
+        # C08: no handler result may be added to an event whose completion has already been signalled
+        ex.oblige('callsite:event_result_update(pending)/requires', 'event_not_already_signalled', ex.spec_bool('not signalled(event)', dict(ex.st.env)), ['C08'])
+
+    def pe_mark_pre(ex, n):
+        if ast_unparse(n.func).startswith('event.'):
+            ex.oblige('callsite:event_mark_complete/requires', 'after_wal_append', z3.BoolVal(bool(ex.st.flags.get('wal_done'))), ['C17'])
+
+    import ast as _ast
+    ast_unparse = _ast.unparse
+
+
+    def eh_done_model(ex, n, awaited, recv=None):
+        raise NotImplementedError
+
+    spec.fn('EventBus.process_event', file=S, qual='EventBus.process_event', is_async=True, interference='process',
+            params={'self': 'EventBus', 'event': 'BaseEvent', 'timeout': 'opt[real]'}, returns='NoneType', locals={'checked_ids': 'set[str]'},
+            requires=[('lock_held', "ctx('holds_global_lock')", ['C06', 'C02']), ('in_loop', 'loop_running()', []), ('serial_bus', 'not self.parallel_handlers', [])],
+            modifies=[('event_results', '*'), ('status', '*'), ('result', '*'), ('error', '*'), ('started_at', '*'), ('completed_at', '*'), ('_handler_completed_signal', '*'),
+                      ('ev_set', '*'), ('task_done', '*'), ('task_cancel_requested', '*'), ('event_processed_at', '*'), ('_event_completed_signal', '*'), ('event_history', '*')],
+            ghost_modifies=['processed', 'invoked', 'eh_calls', 'wal_calls'],
+            callsites={'self._get_applicable_handlers': {'pre': pe_first_stmt, 'ghost_writes': ['processed']},
+                       'self._execute_handlers': {'pre': pe_before_handlers},
+                       'self._default_log_handler': {'pre': lambda ex, n: ex.st.flags.__setitem__('handlers_phase', 'done')},
+                       'self._default_wal_handler': {'pre': pe_wal_pre, 'ghost_writes': ['wal_calls']},
+                       'event.event_result_update': {'pre': pe_pending_result_pre}},
             exits_ensure=[('entered_once', 'processed == old(processed) + [event]', ['C01'])],
+            ensures=[('one_wal_append', 'wal_calls == old(wal_calls) + 1', ['C17']),
+                     ('history_bound', 'implies(self.max_history_size is not None and self.max_history_size > 0, len(self.event_history) <= self.max_history_size)', ['C13'])],
             raises=PE_RAISES)
     spec.methods[('EventBus', 'process_event')] = 'EventBus.process_event'
 
@@ -473,3 +513,84 @@ def install(spec: Spec):
             ensures=[('each_handler_executed_once', 'eh_calls == old(eh_calls) + len(handlers)', ['C01', 'C11', 'C10'])],
             raises=[RaisesClause('CancelledError', label='task_cancelled', tags=['C16'])])
     spec.methods[('EventBus', '_execute_handlers')] = 'EventBus._execute_handlers'
+
+    spec.fn('EventBus._default_log_handler', file=S, qual='EventBus._default_log_handler', is_async=True, suspends=False, params={'self': 'EventBus', 'event': 'BaseEvent'}, returns='NoneType', allocates=False)
+    spec.methods[('EventBus', '_default_log_handler')] = 'EventBus._default_log_handler'
+    # ------------------------------------------------------------------ write-ahead log (C17); file system = arbitrary fault sequences
+    spec.ghosts['wal_lines'] = parse_ty('list[str]')    # texts handed to file.write() on the WAL file by this task, in order
+    spec.ghosts['wal_opens'] = parse_ty('int')
+
+    def io_may_fail(name, suspends=False, result=None):
+        def model(ex, n, awaited, recv=None):
+            for a in n.args:
+                ex.eval(a)
+            if suspends:
+                ex.suspend('io:' + name)
+            if ex.choice([None, None], 'io:' + name + ' ok/fails') == 1:
+                from pyvc.core import RaiseSig
+                raise RaiseSig(ex.fresh_exc('Exception', base='ioerror'), 'io:' + name)
+            return result(ex, n) if result else mk_none()
+        return model
+
+    def dump_json_result(ex, n):
+        f = z3.Function('model_dump_json', Ref, Ref)
+        ev = ex.st.env['event']
+        t = f(ev.term)
+        ex.assume(Ref.is_str(t))
+        return V(parse_ty('str'), t)
+
+    def open_file_model(ex, n, awaited, recv=None):
+        mode = ex.eval(n.args[1]) if len(n.args) > 1 else None
+        ex.oblige('callsite:anyio.open_file/requires', 'append_mode', mode is not None and ex.eq(mode, models.mk_str('a')), ['C17'])
+        ex.oblige('callsite:anyio.open_file/requires', 'the_configured_wal_path', ex.eq(ex.eval(n.args[0]), ex.read_field(ex.st.env['self'].term, 'wal_path')), ['C17'])
+        ex.ghost_set('wal_opens', mk_int(ex.ghost('wal_opens').term + 1))
+        ex.suspend('io:open_file')
+        if ex.choice([None, None], 'io:open ok/fails') == 1:
+            from pyvc.core import RaiseSig
+            raise RaiseSig(ex.fresh_exc('Exception', base='ioerror'), 'io:open_file')
+        return V(PY, py=('cm', 'anyio_file', {}))
+
+    def file_enter(ex, v):
+        return V(PY, py=('file', {}))
+
+    def file_exit(ex, v, sig):
+        from pyvc.core import RaiseSig as _RS
+        if isinstance(sig, _RS) and ex.st.flags.get('cancelled'):
+            return sig     # assumption: a failing close() does not replace a cancellation that is already propagating
+        ex.suspend('io:close')
+        if ex.choice([None, None], 'io:close ok/fails') == 1:
+            from pyvc.core import RaiseSig
+            return RaiseSig(ex.fresh_exc('Exception', base='ioerror'), 'io:close')
+        return sig
+
+    def file_write(ex, n, awaited, recv):
+        text = ex.eval(n.args[0])
+        ex.ghost_set('wal_lines', ex.list_append(ex.ghost('wal_lines'), text))
+        ex.suspend('io:write')
+        if ex.choice([None, None], 'io:write ok/fails') == 1:
+            from pyvc.core import RaiseSig
+            raise RaiseSig(ex.fresh_exc('Exception', base='ioerror'), 'io:write')
+        return mk_int(0)
+
+    spec.builtins['anyio.open_file'] = open_file_model
+    spec.builtins['cm:anyio_file'] = {'enter': file_enter, 'exit': file_exit}
+    spec.builtins['py:file.write'] = file_write
+    spec.methods[('*', 'model_dump_json')] = io_may_fail('model_dump_json', result=dump_json_result)
+
+    def sf_json_line(ex, e):
+        f = z3.Function('model_dump_json', Ref, Ref)
+        c = z3.Function('str_concat', Ref, Ref, Ref)
+        return V(parse_ty('str'), c(f(e.term), smt.strlit('\n')))
+    spec.specfuns['json_line'] = sf_json_line
+
+    spec.fn('EventBus._default_wal_handler', file=S, qual='EventBus._default_wal_handler', is_async=True, interference='process',
+            params={'self': 'EventBus', 'event': 'BaseEvent'}, returns='NoneType', ghost_modifies=['wal_lines', 'wal_opens'], cancel_must_propagate=True,
+            callsites={'self.wal_path.parent.mkdir': {'model': io_may_fail('mkdir')}},
+            exits_ensure=[('no_wal_path_no_io', 'implies(self.wal_path is None, wal_lines == old(wal_lines) and wal_opens == old(wal_opens))', ['C17']),
+                          ('at_most_one_line_and_it_is_the_event', 'wal_lines == old(wal_lines) or wal_lines == old(wal_lines) + [json_line(event)]', ['C17']),
+                          ('at_most_one_open', 'wal_opens <= old(wal_opens) + 1', ['C17'])],
+            raises=[RaisesClause('CancelledError', label='cancelled', tags=['C17'])])
+    spec.methods[('EventBus', '_default_wal_handler')] = 'EventBus._default_wal_handler'
+
+    spec.interference['process'] = Interference('process', havoc=['*'], keep=spec.interference['handlers'].keep, rely=spec.interference['handlers'].rely,
+                                                 inv=spec.interference['runloop'].inv)
